@@ -134,6 +134,17 @@ var catalogue = []expr{
 	{"orderby-tuples", "(W => (. +> (k0: 0))) orderby ."},
 	{"mixed-set", "H"}, {"mixed-set", "//str.repr(H)"}, {"mixed-set", "H orderby ."}, {"mixed-set", "H | N"}, {"mixed-set", "{true, (a: 1)}"},
 	{"mixed-set", "{{}, (a: 1), (b: 2)}"}, {"mixed-set", "$\"${H}\""}, {"mixed-set", "H => [.]"},
+	// relations as set members and sort keys (their rows have ten attributes), and relations called like functions
+	{"relations-ordered", "{W where .k0 < 5, W where .k0 >= 5, W where .k1 < 4} orderby ."}, {"relations-ordered", "{W where .k0 < 5, W where .k0 >= 5}"},
+	// relations built as separate literals (their builder takes the column
+	// order from the first tuple's names, which from nine attributes on is
+	// an enumeration of a hashed map), rows ordered oppositely by a and b
+	{"relations-ordered", "{ {(a:1,b:9,c:0,d:0,e:0,f:0,g:0,h:0,i:0),(a:5,b:1,c:0,d:0,e:0,f:0,g:0,h:0,i:0)}, {(a:2,b:8,c:0,d:0,e:0,f:0,g:0,h:0,i:0),(a:3,b:0,c:0,d:0,e:0,f:0,g:0,h:0,i:0)} }"},
+	{"relations-ordered", "{ {(a:1,b:9,c:0,d:0,e:0,f:0,g:0,h:0,i:0),(a:5,b:1,c:0,d:0,e:0,f:0,g:0,h:0,i:0)}, {(a:2,b:8,c:0,d:0,e:0,f:0,g:0,h:0,i:0),(a:3,b:0,c:0,d:0,e:0,f:0,g:0,h:0,i:0)} } orderby ."},
+	{"relations-ordered", "{(k:1,a:1,b:9,c:0,d:0,e:0,f:0,g:0,h:0,i:0),(k:1,a:5,b:1,c:0,d:0,e:0,f:0,g:0,h:0,i:0),(k:2,a:2,b:8,c:0,d:0,e:0,f:0,g:0,h:0,i:0),(k:2,a:3,b:0,c:0,d:0,e:0,f:0,g:0,h:0,i:0)} nest ~|k|g orderby .g >> .k"},
+	{"relations-ordered", "{(a:1,b:9,c:0,d:0,e:0,f:0,g:0,h:0,i:0,j:1),(a:5,b:1,c:0,d:0,e:0,f:0,g:0,h:0,i:0,j:1)} < {(a:2,b:8,c:0,d:0,e:0,f:0,g:0,h:0,i:0,j:1),(a:3,b:0,c:0,d:0,e:0,f:0,g:0,h:0,i:0,j:1)}"},
+	{"relations-ordered", "(W => \\t (W where .k0 <= t.k0)) orderby ."}, {"relations-ordered", "{W where .k0 < 6} < {W where .k1 < 6}"},
+	{"call-multi", "(R => (@: .y, x: .x))(1)"}, {"call-multi", "(R => (@: .y, x: .x, w: 1))(2)"}, {"call-multi", "(R2 => (@: .z, y: .y))(3)"},
 	// chains of joins: rows of a join result are joined again, one-to-many, then counted or printed
 	{"join-chain", "(R <&> R2) <&> R3"}, {"join-chain", "((R <&> R2) <&> R3) count"}, {"join-chain", "((R <&> R2) <&> R3) => .w"},
 	{"join-chain", "(R <&> R2 <&> R3) orderby [.x, .y, .z, .w]"},
